@@ -77,6 +77,47 @@ func TestColdStart(t *testing.T) {
 
 func TestMain(m *testing.M) { vk.Main(m, "C02") }
 
+// TestFirst runs right after the cold-start probe, before any larger input has been seen: select index lengths
+// in ASCENDING order around every power of two, so that a buffer the library grows and reuses passes through
+// every capacity step exactly when an index of that length is built.
+func TestFirst(t *testing.T) {
+	vk.SetPhase("first")
+	shard := 0
+	if shard == 0 {
+		// numbers of checkpoints around every power of two up to 512 (select index lengths that
+		// coincide with capacity steps of a growing or pooled buffer): 32*c ones, c = 2^k + d
+		for k := 0; k <= 9; k++ {
+			for d := -1; d <= 1; d++ {
+				c := 1<<uint(k) + d
+				if c <= 0 {
+					continue
+				}
+				for style := 0; style < 2; style++ {
+					var w vk.Words
+					onesLeft := 32 * c
+					for i := 0; onesLeft > 0; i++ {
+						x := ^uint64(0)
+						if style == 1 {
+							x = vk.Mix(uint64(c)*31+uint64(i)) | 1
+						}
+						if cnt := model.WordCount(x); cnt > onesLeft {
+							for b := 63; cnt > onesLeft; b-- {
+								if x>>uint(b)&1 == 1 {
+									x &^= 1 << uint(b)
+									cnt--
+								}
+							}
+						}
+						onesLeft -= model.WordCount(x)
+						w = append(w, x)
+					}
+					checker.Run(t, Case{Words: w, Style: "grid-pow2-checkpoints"})
+				}
+			}
+		}
+	}
+}
+
 type Case struct {
 	Max     int          `json:"max,omitempty"` // v+1: the maximum bitmap of exactly 2^25 words = 2^31 bits, description v (gen.UseMax)
 	Words   vk.Words     `json:"words,omitempty"`
@@ -439,44 +480,6 @@ func TestGrid(t *testing.T) {
 			}
 		}
 	}
-	if shard == 0 {
-		// numbers of checkpoints around every power of two up to 512 (select index lengths that
-		// coincide with capacity steps of a growing or pooled buffer): 32*c ones, c = 2^k + d
-		for k := 0; k <= 9; k++ {
-			for d := -1; d <= 1; d++ {
-				c := 1<<uint(k) + d
-				if c <= 0 {
-					continue
-				}
-				for style := 0; style < 2; style++ {
-					var w vk.Words
-					onesLeft := 32 * c
-					for i := 0; onesLeft > 0; i++ {
-						x := ^uint64(0)
-						if style == 1 {
-							x = vk.Mix(uint64(c)*31+uint64(i)) | 1
-						}
-						if cnt := model.WordCount(x); cnt > onesLeft {
-							for b := 63; cnt > onesLeft; b-- {
-								if x>>uint(b)&1 == 1 {
-									x &^= 1 << uint(b)
-									cnt--
-								}
-							}
-						}
-						onesLeft -= model.WordCount(x)
-						w = append(w, x)
-					}
-					checker.Run(t, Case{Words: w, Style: "grid-pow2-checkpoints"})
-				}
-			}
-		}
-	}
-	if shard == 0 && vk.Thorough() { // exactly 2^31 bits (the index builders walk every bit: seconds, thorough only)
-		for _, v := range []int{0, 2} {
-			checker.Run(t, Case{Max: v + 1, Style: "maximum"})
-		}
-	}
 	if shard == 0 { // a few very large bitmaps in every run
 		for style := 0; style <= 5; style++ {
 			for _, n := range []int{65536, 70001} {
@@ -501,4 +504,17 @@ func TestGrid(t *testing.T) {
 		what += "; every 16-bit pattern x 4 positions x 3 fills"
 	}
 	vk.MarkExhaustive(what)
+}
+
+// TestLast runs at the very end of the process: the maximum bitmap comes last, so that what it leaves behind in
+// the library cannot mask anything the ordinary cases would have met.
+func TestLast(t *testing.T) {
+	vk.SetPhase("last")
+	shard := 0
+	if shard == 0 && vk.Thorough() { // exactly 2^31 bits (the index builders walk every bit: seconds, thorough only)
+		for _, v := range []int{0, 2} {
+			checker.Run(t, Case{Max: v + 1, Style: "maximum"})
+		}
+	}
+	checker.RegressLast(t)
 }
